@@ -132,3 +132,52 @@ Example C13_state_load_iter :
         OL [OS "state"; OL [OL [OS "num_yielded"; OZ 0]; OL [OS "root"; OL [OL [OS "_num_yielded"; OZ 0]]]]];
         OS "load"; OS "iter"; OL [OS "item"; OZ 2]].
 Proof. vm_compute. reflexivity. Qed.
+
+(* ---- the StatefulDataLoader front-end (SdlApiModel.v: __iter__ / state_dict / load_state_dict / _get_iterator over
+   abstract iterators, iterator objects in a heap because the user may still hold an old one), for EVERY front-end state ---- *)
+From PD Require SdlApiModel SdlApiProofs.
+
+(* "each iter() starts a new full epoch unless a state was loaded since the last iter()" ... *)
+Theorem C13_sdl_iter_without_pending_starts_fresh : forall persistent f,
+  SdlApiProofs.heap_ok f -> SdlApiModel.fe_flag f = false -> SdlApiModel.fe_pending f = None ->
+  let f' := SdlApiModel.fe_iter persistent f in
+  exists i, SdlApiModel.fe_handle f' = Some i /\ SdlApiModel.fe_iterator f' = Some i /\ SdlApiProofs.it_of f' i = (0, false) /\
+            SdlApiModel.fe_pending f' = None /\ SdlApiModel.fe_flag f' = false.
+Proof. exact SdlApiProofs.iter_without_pending_starts_fresh. Qed.
+Print Assumptions C13_sdl_iter_without_pending_starts_fresh.
+
+(* "... in which case it starts from that state; a state taken after the last item resumes into the next epoch" *)
+Theorem C13_sdl_iter_after_load_starts_from_state : forall f s,
+  SdlApiModel.fe_flag f = false -> SdlApiModel.fe_iterator f = None -> SdlApiModel.fe_pending f = Some s ->
+  forall persistent, let f' := SdlApiModel.fe_iter persistent f in
+  exists i, SdlApiModel.fe_handle f' = Some i /\ SdlApiModel.fe_iterator f' = Some i /\
+            SdlApiProofs.it_of f' i = SdlApiProofs.started_from s /\ SdlApiModel.fe_pending f' = None.
+Proof. exact SdlApiProofs.iter_after_load_starts_from_state. Qed.
+Print Assumptions C13_sdl_iter_after_load_starts_from_state.
+
+(* "state_dict() refers to the most recently requested iterator and, if none exists, neither consumes data nor causes the
+   next iter() to start twice": it builds ONE iterator (from the pending state, if any) and the next iter() hands out that one *)
+Theorem C13_sdl_state_then_iter_hands_out_that_iterator : forall persistent f, SdlApiModel.fe_iterator f = None ->
+  let '(s, f1) := SdlApiModel.fe_state f in
+  let f2 := SdlApiModel.fe_iter persistent f1 in
+  s = match SdlApiModel.fe_pending f with Some p => p | None => (0, false) end /\
+  length (SdlApiModel.fe_heap f1) = S (length (SdlApiModel.fe_heap f)) /\
+  (snd s = false -> SdlApiModel.fe_handle f2 = Some (length (SdlApiModel.fe_heap f)) /\ SdlApiModel.fe_heap f2 = SdlApiModel.fe_heap f1 /\
+                    SdlApiProofs.it_of f2 (length (SdlApiModel.fe_heap f)) = s).
+Proof. exact SdlApiProofs.state_then_iter_hands_out_that_iterator. Qed.
+Print Assumptions C13_sdl_state_then_iter_hands_out_that_iterator.
+
+Theorem C13_sdl_state_is_pure : forall f, SdlApiProofs.heap_ok f ->
+  let '(s, f1) := SdlApiModel.fe_state f in
+  (forall i, i < length (SdlApiModel.fe_heap f) -> SdlApiProofs.it_of f1 i = SdlApiProofs.it_of f i) /\
+  SdlApiModel.fe_handle f1 = SdlApiModel.fe_handle f /\ SdlApiModel.fe_state f1 = (s, f1).
+Proof. exact SdlApiProofs.state_is_pure. Qed.
+Print Assumptions C13_sdl_state_is_pure.
+
+Theorem C13_sdl_load_drops_iterator : forall f sd,
+  let f' := SdlApiModel.fe_load f sd in
+  SdlApiModel.fe_iterator f' = None /\ SdlApiModel.fe_flag f' = false /\ SdlApiModel.fe_heap f' = SdlApiModel.fe_heap f /\
+  SdlApiModel.fe_handle f' = SdlApiModel.fe_handle f /\
+  SdlApiModel.fe_pending f' = match sd with SdlApiModel.SdEmpty => SdlApiModel.fe_pending f | SdlApiModel.SdPos st => Some st end.
+Proof. exact SdlApiProofs.load_drops_iterator. Qed.
+Print Assumptions C13_sdl_load_drops_iterator.
